@@ -1,8 +1,264 @@
-import Driver.Util
-/-! Line-protocol driver for C03 (not built yet). -/
+import GqlgenVerif.Model.Pipeline
+import GqlgenVerif.Model.PipelineSpec
+import GqlgenVerif.Model.SuggRace
+/-! Line-protocol driver for C03 (stateful: query table, global rule list, current session).
+
+```
+Q <key> -|<nField>:<nOther>:<sugg>:<ops>        ops = -|name/q|s/roots;…   roots = -|n.n.…   name _ = anonymous
+G reset                                         global rule list := initial
+S none|map|lru<N> <disable 0|1> -|id:FLAGS,…    FLAGS ⊆ PCORTF        new executor, empty cache
+R <q> <op|_> <vars bits|-> <pmrej|-> <pmrw id>q,…|-> <cmrej|-> <blk|-> <xerr> <emit> <polls>
+    → <ok|rej> <resps> <log> #<gate> <rules>
+C <the ten R fields> <ok|rej> <resps> <log>     Spec.ok of an observation (state unchanged) → ok | violates:…
+W <g> <n> <schedule i.i.i…>                      Race.exec: → seen lists of all threads + global
+```
+-/
+open GqlgenVerif GqlgenVerif.Pipeline
 namespace Driver.C03
-def step (_line : String) : String := "bad-op"
+
+inductive Sess where
+  | no (c : Unit)
+  | map (c : Apq.MapState Doc Nat)
+  | lru (c : Apq.Lru Doc Nat)
+
+structure DState where
+  table : List (Nat × Option Doc) := []
+  rules : Rules := initRules
+  cfg : Cfg := { exts := [] }
+  sess : Sess := .no ()
+
+def world (t : List (Nat × Option Doc)) : World :=
+  { parse := fun k => (t.find? (·.1 == k)).bind (·.2) }
+
+def splitNonEmpty (s : String) (sep : String) : List String :=
+  if s == "-" || s == "" then [] else s.splitOn sep
+
+def natList (s : String) (sep : String := ",") : Option (List Nat) :=
+  (splitNonEmpty s sep).mapM (·.toNat?)
+
+def parseOp (s : String) : Option OpDef :=
+  match s.splitOn "/" with
+  | [n, k, rs] => do
+    let roots ← natList rs "."
+    pure { name := if n == "_" then "" else n, sub := k == "s", roots := roots }
+  | _ => none
+
+def parseDoc (key : Nat) (s : String) : Option (Option Doc) :=
+  if s == "-" then some none else
+  match s.splitOn ":" with
+  | [nf, no, sg, ops] => do
+    let nf ← nf.toNat?
+    let no ← no.toNat?
+    let ops ← (splitNonEmpty ops ";").mapM parseOp
+    pure (some { id := key, ops := ops, nField := nf, nOther := no, sugg := sg == "1" })
+  | _ => none
+
+def parseExt (s : String) : Option Ext :=
+  match s.splitOn ":" with
+  | [i, fl] => do
+    let i ← i.toNat?
+    let has := fun (c : Char) => fl.toList.contains c
+    pure { id := i, pm := has 'P', cm := has 'C', op := has 'O', resp := has 'R', root := has 'T', field := has 'F' }
+  | _ => none
+
+def parsePair (s : String) : Option (Nat × Nat) :=
+  match s.splitOn ">" with
+  | [a, b] => do pure (← a.toNat?, ← b.toNat?)
+  | _ => none
+
+def parseReq : List String → Option Req
+  | [q, op, vars, pmrej, pmrw, cmrej, blk, xerr, emit, polls] => do
+    let q ← q.toNat?
+    let pmrej ← natList pmrej
+    let pmrw ← (splitNonEmpty pmrw ",").mapM parsePair
+    let cmrej ← natList cmrej
+    let blk ← natList blk
+    let emit ← emit.toNat?
+    let polls ← polls.toNat?
+    pure { q := q, opName := if op == "_" then "" else op,
+           varsOk := (if vars == "-" then [] else vars.toList.map (· == '1')),
+           pmReject := pmrej, pmRewrite := pmrw, cmReject := cmrej, opBlock := blk,
+           execErr := xerr == "1", nEmit := emit, polls := polls }
+  | _ => none
+
+def showPath (p : Path) : String := ".".intercalate (p.map toString)
+
+def kindCh : Kind → String
+  | .op => "O" | .resp => "R" | .root => "T" | .field => "F"
+
+def showEv : Ev → String
+  | .pm i => s!"pm{i}"
+  | .cm i => s!"cm{i}"
+  | .enter k i p => s!"{kindCh k}+{i}" ++ (if p.isEmpty then "" else "@" ++ showPath p)
+  | .exit k i p => s!"{kindCh k}-{i}" ++ (if p.isEmpty then "" else "@" ++ showPath p)
+  | .exec => "X"
+  | .dir p => "D@" ++ showPath p
+  | .res p => "V@" ++ showPath p
+  | .cget q h => s!"g{q}" ++ (if h then "h" else "m")
+  | .cadd q => s!"a{q}"
+
+def showLog (l : List Ev) : String := if l.isEmpty then "-" else ",".intercalate (l.map showEv)
+
+def showGate : Gate → String
+  | .pm i => s!"pm{i}" | .parse => "P" | .noOperation => "N" | .validation => "V"
+  | .opNotFound => "S" | .variables => "A" | .cm i => s!"cm{i}"
+
+def showCode : Code → String
+  | .none => "-" | .gate g => showGate g | .blocked i => s!"blk{i}" | .execErr => "X"
+
+def showResp : Option Resp → String
+  | none => "nil"
+  | some r => s!"d{if r.hasData then 1 else 0}e{r.nErrors}c{showCode r.code}s{if r.sugg then 1 else 0}"
+
+def showResps (l : List (Option Resp)) : String := if l.isEmpty then "-" else ";".intercalate (l.map showResp)
+
+def showRule : Rule → String
+  | .foct => "f" | .ws => "w" | .other => "o"
+
+def showRules (l : Rules) : String := if l.isEmpty then "-" else String.join (l.map showRule)
+
+def parseRules (s : String) : Option Rules :=
+  if s == "-" then some [] else
+  s.toList.mapM fun c => if c == 'f' then some Rule.foct else if c == 'w' then some .ws else if c == 'o' then some .other else none
+
+/-! parsing an observation back (for `C`) -/
+
+def parsePath (s : String) : Option Path := natList s "."
+
+def parseKind (c : Char) : Option Kind :=
+  if c == 'O' then some .op else if c == 'R' then some .resp else if c == 'T' then some .root
+  else if c == 'F' then some .field else none
+
+def parseEv (s : String) : Option Ev :=
+  let (hd, path) := match s.splitOn "@" with
+    | [a, b] => (a, b)
+    | _ => (s, "-")
+  do
+    let p ← parsePath path
+    if hd == "X" then pure .exec
+    else if hd == "D" then pure (.dir p)
+    else if hd == "V" then pure (.res p)
+    else if hd.startsWith "pm" then pure (.pm (← (hd.drop 2).toString.toNat?))
+    else if hd.startsWith "cm" then pure (.cm (← (hd.drop 2).toString.toNat?))
+    else if hd.startsWith "g" then
+      let body := (hd.drop 1).toString
+      let n ← (body.dropRight 1).toNat?
+      pure (.cget n (body.back == 'h'))
+    else if hd.startsWith "a" then pure (.cadd (← (hd.drop 1).toString.toNat?))
+    else
+      let k ← parseKind hd.front
+      let i ← (hd.drop 2).toString.toNat?
+      if (hd.drop 1).toString.front == '+' then pure (.enter k i p)
+      else if (hd.drop 1).toString.front == '-' then pure (.exit k i p)
+      else none
+
+def parseGate (s : String) : Option Gate :=
+  if s == "P" then some .parse else if s == "N" then some .noOperation else if s == "V" then some .validation
+  else if s == "S" then some .opNotFound else if s == "A" then some .variables
+  else if s.startsWith "pm" then (s.drop 2).toString.toNat?.map .pm
+  else if s.startsWith "cm" then (s.drop 2).toString.toNat?.map .cm
+  else none
+
+def parseCode (s : String) : Option Code :=
+  if s == "-" then some .none else if s == "X" then some .execErr
+  else if s.startsWith "blk" then (s.drop 3).toString.toNat?.map .blocked
+  else (parseGate s).map .gate
+
+/-- d<0|1>e<n>c<code>s<0|1> -/
+def parseResp (s : String) : Option (Option Resp) :=
+  if s == "nil" then some none else
+  match (s.drop 1).toString.splitOn "e" with
+  | d :: rest =>
+    let rest := "e".intercalate rest
+    match rest.splitOn "c" with
+    | n :: cs =>
+      let cs := "c".intercalate cs
+      -- the last two characters are s<0|1>
+      let code := cs.dropRight 2
+      do
+        let n ← n.toNat?
+        let c ← parseCode code
+        pure (some { hasData := d == "1", nErrors := n, code := c, sugg := cs.back == '1' })
+    | _ => none
+  | _ => none
+
+def runSess (W : World) (cfg : Cfg) (rules : Rules) (r : Req) : Sess → Out × Sess × Rules
+  | .no c => let (o, s) := run W Apq.noCache cfg ⟨c, rules⟩ r; (o, .no s.cache, s.rules)
+  | .map c => let (o, s) := run W Apq.mapCache cfg ⟨c, rules⟩ r; (o, .map s.cache, s.rules)
+  | .lru c => let (o, s) := run W Apq.lruCache cfg ⟨c, rules⟩ r; (o, .lru s.cache, s.rules)
+
+def gateTag : Option Gate → String
+  | none => "ok"
+  | some g => showGate g
+
+def step (st : DState) (line : String) : DState × String :=
+  match line.splitOn " " with
+  | ["Q", k, d] =>
+    match k.toNat? with
+    | some k =>
+      match parseDoc k d with
+      | some pd => ({ st with table := (k, pd) :: st.table }, "ok")
+      | none => (st, "bad-op")
+    | none => (st, "bad-op")
+  | ["G", "reset"] => ({ st with rules := initRules }, "ok")
+  | ["S", cache, dis, exts] =>
+    match (splitNonEmpty exts ",").mapM parseExt with
+    | some es =>
+      let cfg : Cfg := { exts := es, disableSuggestion := dis == "1" }
+      if cache == "none" then ({ st with cfg := cfg, sess := .no () }, "ok")
+      else if cache == "map" then ({ st with cfg := cfg, sess := .map Apq.mapEmpty }, "ok")
+      else if cache.startsWith "lru" then
+        match (cache.drop 3).toString.toNat? with
+        | some n => ({ st with cfg := cfg, sess := .lru (Apq.lruEmpty n) }, "ok")
+        | none => (st, "bad-op")
+      else (st, "bad-op")
+    | none => (st, "bad-op")
+  | "R" :: rest =>
+    match parseReq rest with
+    | some r =>
+      let (o, sess, rules) := runSess (world st.table) st.cfg st.rules r st.sess
+      ({ st with sess := sess, rules := rules },
+        s!"{if o.gate.isNone then "ok" else "rej"} {showResps o.resps} {showLog o.log} #{gateTag o.gate} {showRules rules}")
+    | none => (st, "bad-op")
+  | "C" :: rest =>
+    match parseReq (rest.take 10), rest.drop 10 with
+    | some r, [_acc, resps, log] =>
+      match (splitNonEmpty resps ";").mapM parseResp, (splitNonEmpty log ",").mapM parseEv with
+      | some rs, some l =>
+        let W := world st.table
+        if Spec.ok W st.cfg.exts r l rs then (st, "ok")
+        else
+          match Spec.accepts W st.cfg.exts r with
+          | none =>
+            if !(l.all (fun e => !e.isExecution)) then (st, "violates:rejected-request-executed")
+            else (st, "violates:rejected-request-not-errors-only")
+          | some op =>
+            let (el, ers) := Spec.expected st.cfg.exts op r
+            if l.filter (fun e => !e.isCache) ≠ el then
+              (st, if l.any (·.isExecution) then "violates:hook-order-or-count" else "violates:accepted-request-not-executed")
+            else (st, if rs ≠ ers then "violates:answers" else "violates:?")
+      | _, _ => (st, "bad-obs")
+    | _, _ => (st, "bad-op")
+  | ["W", g, n, sched] =>
+    match parseRules g, n.toNat?, natList sched "." with
+    | some g, some n, some sc =>
+      let s := Race.exec (Race.start g n) sc
+      let seen := s.threads.map fun t => match t.seen with
+        | some l => showRules l
+        | none => "?"
+      (st, s!"{",".intercalate seen} {showRules s.global}")
+    | _, _, _ => (st, "bad-op")
+  | _ => (st, "bad-op")
+
+partial def loop (h out : IO.FS.Stream) (st : DState) : IO Unit := do
+  let line ← h.getLine
+  if line.isEmpty then return ()
+  let l := if line.back == '\n' then line.dropRight 1 else line
+  let (st', o) := step st l
+  out.putStrLn o
+  loop h out st'
+
 end Driver.C03
 
 def main : IO Unit := do
-  Driver.loop (← IO.getStdin) (← IO.getStdout) Driver.C03.step
+  Driver.C03.loop (← IO.getStdin) (← IO.getStdout) {}
